@@ -292,7 +292,8 @@ func c17Checksum(r *Run) {
 
 func secs1BlockFragment(w *World) []*ssa.Function {
 	entries := []*ssa.Function{w.Fn("secs1", "parseBlock"), w.Fn("secs1", "block.appendTo"), w.Fn("secs1", "splitBody"), w.Fn("secs1", "assembleBlocks"), w.Fn("secs1", "assembleFrame"), w.Fn("secs1", "buildHeader"),
-		w.Fn("secs1", "lineIO.receiveBlock"), w.Fn("secs1", "lineIO.readFull"), w.Fn("secs1", "lineIO.writeAll")}
+		w.Fn("secs1", "lineIO.receiveBlock"), w.Fn("secs1", "lineIO.readFull"), w.Fn("secs1", "lineIO.writeAll"),
+		w.Fn("secs1", "transport.Write"), w.Fn("secs1", "transport.splitFrame")}
 	return fragmentFrom(w, entries, func(p string) bool { return p == "secs1" || p == "internal/wire" })
 }
 
@@ -687,7 +688,7 @@ func c18ReceiveHandshake(r *Run) {
 }
 
 func c18SingleSink(r *Run) {
-	const rule = "C18-R4-single-sink"
+	rule := r.aliased("C18-R4-single-sink")
 	w := r.W
 	le := w.Fn("secs1", "transport.lineEngine")
 	rs := w.Fn("secs1", "transport.runSend")
